@@ -284,6 +284,25 @@ def run_bpi(c):
             learner.train_on(build_pomdp(c["pomdp_prev"]))
             del evals[:]
             del lps[:]
+        if c.get("prefix"):
+            # the run with iterations=k is a prefix of the run with iterations=k+1 (same seed): every
+            # intermediate stopping point is a result the learner can return, in particular one that
+            # stops right after an escape-node step (no node improvement, hence no re-evaluation, follows)
+            pre = []
+            for k in range(int(c["iterations"])):
+                try:
+                    rk = B.FSCBoundedPolicyIteration(controller_state_count=int(c["nodes"]), iterations=k,
+                                                     seed=int(c["seed"]), improve_node_fn=base_fn).train_on(pomdp)
+                    pre.append({"pi": fjn(rk.policy.action_strategy), "om": fjn(rk.policy.observation_strategy),
+                                "init": fjn(rk.policy.initial_state_dist), "value": fj(rk.value),
+                                "V": fjn(rk.state_controller_value), "converged": bool(rk.converged)})
+                except BaseException as e:
+                    if isinstance(e, (KeyboardInterrupt, SystemExit)):
+                        raise
+                    pre.append({"error": type(e).__name__ + ": " + str(e)[:300]})
+            out["prefix_results"] = pre
+            del evals[:]
+            del lps[:]
         res = learner.train_on(pomdp)
         pol = res.policy
         out["result"] = {"pi": fjn(pol.action_strategy), "om": fjn(pol.observation_strategy),
